@@ -474,6 +474,11 @@ func enumPacks() {
 // ---------------------------------------------------------------- main
 
 func main() {
+	// self-test of the oracle's raw-JSON walker
+	if unsortedAnnotations([]byte(`{"config":{"annotations":{"b":"1","a":"2"}},"annotations":{"a":"1"}}`)) == "" ||
+		unsortedAnnotations([]byte(`{"z":1,"a":{"annotations":{"a":"1","b":"2"}},"layers":[{"annotations":{"":"0","k":"1","k1":"2"}}]}`)) != "" {
+		panic("unsortedAnnotations self-test")
+	}
 	run = common.Start("C19")
 	run.Rule = "distinct pack calls that pushed or succeeded + distinct accepted media-type and timestamp strings"
 	if run.Replay != "" {
